@@ -400,3 +400,56 @@ Lemma encode_injective : forall defs L, wf_layouts defs L ->
 Proof.
   intros defs L Hwf t v1 v2 H1 H2 Heq. eapply encode_injective_at; eauto.
 Qed.
+
+(* ------------------------------------------------------------------------------------------ *)
+(* the test as emitted (subtype test omitted when the enum has no i31 variant)                *)
+(* ------------------------------------------------------------------------------------------ *)
+
+Lemma has_int31_false : forall ls k, has_int31 ls = false -> k < length ls ->
+  nth k ls RInt31 <> RInt31.
+Proof.
+  intros ls k Hn Hk Heq. unfold has_int31 in Hn.
+  assert (Ht : existsb (fun r => match r with RInt31 => true | _ => false end) ls = true).
+  { apply existsb_exists. exists (nth k ls RInt31). split.
+    - apply nth_In. exact Hk.
+    - rewrite Heq. reflexivity. }
+  rewrite Hn in Ht. discriminate Ht.
+Qed.
+
+Lemma emitted_test_correct : forall defs L, wf_layouts defs L ->
+  forall e k args vs, defs e = Some (DEnum vs) ->
+  has_type defs (VEnum e k args) (TId e) ->
+  forall j, j < length vs ->
+  exists b, test_variant_emitted L e j (encode L (VEnum e k args)) = Some b /\ (b = true <-> j = k).
+Proof.
+  intros defs L Hwf e k args vs Hd Hty j Hj.
+  pose proof (discriminate_correct defs L Hwf e k args vs Hd Hty j Hj) as Hdc.
+  unfold test_variant_emitted.
+  destruct (nth j (L e) RInt31) as [|t'|x'] eqn:Ej.
+  - eexists. split; [reflexivity|exact Hdc].
+  - eexists. split; [reflexivity|exact Hdc].
+  - destruct (has_int31 (L e)) eqn:Hi.
+    + eexists. split; [reflexivity|exact Hdc].
+    + (* no i31 variant and a boxed variant: every variant is boxed, the tag load is defined *)
+      inversion Hty as [| | | e' k' args' vs' tys Hd' Hk Hargs]; subst.
+      rewrite Hd in Hd'. injection Hd' as <-.
+      destruct (Hwf e vs Hd) as (fin & HL & Hself & Hfin).
+      destruct (nth_error vs j) as [tj|] eqn:Hnj.
+      2:{ apply nth_error_None in Hnj. lia. }
+      pose proof (nth_layout_spec fin vs k tys Hk) as Ek.
+      pose proof (nth_layout_spec fin vs j tj Hnj) as Ej'.
+      rewrite <- HL in Ek, Ej'. rewrite Ej in Ej'. symmetry in Ej'.
+      assert (Hklt : k < length (L e)).
+      { rewrite HL, layout_spec_length. apply nth_error_Some. rewrite Hk. discriminate. }
+      pose proof (has_int31_false (L e) k Hi Hklt) as Hni.
+      cbn [encode].
+      destruct (nth k (L e) RInt31) as [|t|x] eqn:Sk.
+      * exfalso. apply Hni. reflexivity.
+      * exfalso. symmetry in Ek.
+        apply variant_spec_unboxed in Ek. destruct Ek as (-> & Hdv & _).
+        apply variant_spec_boxed in Ej'. destruct Ej' as (_ & Dj).
+        assert (Hjk : j = k) by (eapply single_data_variant; eauto).
+        subst j. rewrite Ej in Sk. discriminate Sk.
+      * cbn [tag_of]. eexists. split; [reflexivity|].
+        rewrite Z.eqb_eq. split; intros H; lia.
+Qed.
